@@ -160,4 +160,23 @@ def oracle(kind, payload):
     b = sem.expectations(out, letters)
     if not np.allclose(a, b, atol=1e-9):
         return f"expectation values changed: {a} -> {b}"
+    if payload["wrap"]:
+        # every marker gets a placeholder of its own: selecting a map for one cut must not select it for another
+        ph = [i.operation for i in out.data if i.operation.name == "qpd_2q"]
+        if len({id(o) for o in ph}) != len(ph):
+            ph[0].basis_id = 3
+            other = next(o for o in ph[1:] if o is ph[0])
+            return (f"{len(ph)} markers share {len({id(o) for o in ph})} placeholder object(s): selecting map 3 for the first cut selected "
+                    f"map {other.basis_id} for another one")
+        # the transformed problem can be handed on as it is: automatic partitioning of the cut circuit with the expanded observables
+        # (only when every qubit of the input is used and there is nothing classical, so that no refusal is legitimate)
+        used = {qc.find_bit(q).index for i in qc.data for q in i.qubits}
+        if nmark and len(used) == qc.num_qubits and qc.num_clbits == 0 and all(o.get("p", 0) == 0 for o in payload["obs"]):
+            from qiskit_addon_cutting import partition_problem
+            try:
+                pp = partition_problem(out, observables=exp_obs)
+            except Exception as ex:
+                return f"the circuit returned by cut_wires cannot be partitioned automatically: {type(ex).__name__}: {ex}"
+            if sum(c.num_qubits for c in pp.subcircuits.values()) != out.num_qubits:
+                return "automatic partitioning of the cut circuit dropped a qubit"
     return None
